@@ -154,6 +154,7 @@ class Sim:
         self.aspects = set(self.cfg.get("aspects", ["grid", "names", "merges"]))
         self.extra_checks = []  # callables(sim) run after every op (profiles add these)
         self.save_hooks = []  # callables(sim, ds, slot, path) run after every successful save
+        self.doc_hooks = []  # callables(sim, ds, source_path or None) run when a document object comes to life
         self.observed = set()
         self.touched = None
         self.grid_prefix = self.cfg.get("grid_prefix", "C03")
@@ -171,6 +172,11 @@ class Sim:
         v = Violation(prop or check_id.split(".")[0], check_id, key, detail)
         v.step = self.step_no
         raise v
+
+    def doc_created(self, ds, source_path) -> None:
+        if self.real:
+            for fn in self.doc_hooks:
+                fn(self, ds, source_path)
 
     def pick_doc(self, d) -> DocState | None:
         if not self.docs:
@@ -322,6 +328,11 @@ class Sim:
                     # self-consistency only: what the rectangle should become is not specified
                     if cls == "MergedCell":
                         continue
+                if isinstance(exp, Opaque) and exp.cls == "ErrorCell" and reopened and cls == "EmptyCell":
+                    # the documented exception: formula-error cells are not written (the library warns)
+                    mrow[c] = None
+                    self.probe("error_cell_not_written_excused")
+                    continue
                 if isinstance(exp, Opaque):
                     ok = cls == exp.cls and _opaque_eq(exp.value, cell.value)
                     want = exp.cls
@@ -494,6 +505,7 @@ def op_new_doc(sim: Sim, a) -> str:
 
         doc = Document(sheet_name=sn, table_name=tn, num_header_rows=hr, num_header_cols=hc, num_rows=rows, num_cols=cols)
     ds = DocState(doc, model)
+    sim.doc_created(ds, None)
     if len(sim.docs) >= MAX_DOCS:
         sim.docs[a.get("d", 0) % len(sim.docs)] = ds
     else:
@@ -516,6 +528,7 @@ def op_open_fixture(sim: Sim, a) -> str:
     doc = Document(path)
     model = sim.model_from_doc(doc, name)
     ds = DocState(doc, model)
+    sim.doc_created(ds, path)
     if len(sim.docs) >= MAX_DOCS:
         sim.docs[a.get("d", 0) % len(sim.docs)] = ds
     else:
@@ -984,6 +997,7 @@ def op_restart(sim: Sim, a) -> str:
         sim.probe("recovered_after_fault")
         sim.faults_pending_liveness = False
     ds = DocState(doc, slot.model.clone())
+    sim.doc_created(ds, path)
     _place_doc(sim, ds, a, replace)
     return "ok"
 
